@@ -467,10 +467,22 @@ fn main() {
             cx.out.case("", &[], &["blob".into(), hx(&p)], &r, Some(r.starts_with("returned") && !r.contains("(0 accepted)")), "handmade-signature-parses");
             packets.push(p);
         }
+        // user attribute packets as the library writes them (image attribute: little-endian header length, version, format) and
+        // with an unknown subpacket type
+        {
+            use pgp::ser::Serialize;
+            for n in [0usize, 1, 40] {
+                if let Ok(ua) = pgp::packet::UserAttribute::new_image(cx.rng.bytes(n).into()) { if let Ok(b) = pgp::packet::Packet::from(ua).to_bytes() { packets.push(b); } }
+            }
+            packets.push(new_header(17, &[6u8, 100, 1, 2, 3, 4, 5]));
+            packets.push(new_header(17, &[]));
+        }
         for p in packets.iter().filter(|p| p.len() <= 1200) {
             let hl = if p.len() > 1 && p[1] < 192 { 2 } else if p.len() > 1 && p[1] < 224 { 3 } else { 6 };
             for o in hl..p.len().saturating_sub(1) {
-                for v in [[0xffu8, 0xff], [0x80, 0x00], [0xff, 0xfe]] {
+                // (large values, and the small ones just below what a fixed-size header needs: little- and big-endian)
+                let vals: &[[u8; 2]] = if thorough || p.len() <= 120 { &[[0xffu8, 0xff], [0x80, 0x00], [0xff, 0xfe], [0, 0], [1, 0], [2, 0], [3, 0], [4, 0], [5, 0], [0, 1], [0, 2], [0, 3], [0, 4], [0, 5]] } else { &[[0xffu8, 0xff], [0x80, 0x00], [0xff, 0xfe]] };
+                for v in vals.iter().copied() {
                     let mut d = p.clone(); d[o] = v[0]; d[o + 1] = v[1];
                     sweep(&mut cx, d, "field-extremes-2");
                 }
